@@ -1,8 +1,40 @@
-(** * C19 — Text syntax round-trips. *)
-From WT Require Import Base.Wrap Base.ListX Model.Text Proofs.TextProofs.
+(** * C19 — Text syntax round-trips: what is printed is what is parsed. *)
+From WT Require Import Base.Wrap Base.ListX Base.Bytes Model.Time Model.Ring Model.Codec Model.Text
+  Proofs.TextProofs Proofs.DurationProofs.
 
 (** every 32-bit timestamp prints to a string that parses back to it (the calendar part is a
     finite sweep over the 49 711 days, evaluated by vm_compute and lifted by all_from_spec) *)
 Theorem C19_timestamp_roundtrip t : 0 <= t < 2^32 -> parse_timestamp (timestamp_string t) = Some t.
 Proof. exact (timestamp_roundtrip t). Qed.
 Print Assumptions C19_timestamp_roundtrip.
+
+(** every non-negative duration prints to a string that parses back to it *)
+Theorem C19_duration_roundtrip d : 0 <= d < 2^31 -> parse_duration (duration_string d) = Some d.
+Proof. exact (duration_roundtrip d). Qed.
+Print Assumptions C19_duration_roundtrip.
+
+(** whenever ParseDuration accepts, the string is a non-empty numeral followed by exactly one unit
+    letter and the value is numeral * unit, at most 2^31 - 1 (so: empty input, a missing, unknown or
+    doubled unit, a sign and values exceeding 31 bits are all rejected) *)
+Theorem C19_parse_duration_exact s d : parse_duration s = Some d ->
+  exists ds u U, s = ds ++ [u] /\ ds <> [] /\ Forall (fun c => is_digit c = true) ds /\
+                 unit_multiplier u = Some U /\ d = digits_val ds 0 * U /\ 0 <= d <= MaxI32.
+Proof. exact (parse_duration_exact s d). Qed.
+Print Assumptions C19_parse_duration_exact.
+
+(** one archive "step:retention", and every valid archive list, parse back to themselves *)
+Theorem C19_archive_info_roundtrip s n : 0 < s -> 0 < n -> s * n < 2^31 ->
+  parse_archive_info (archive_info_string s n) = Some (s, n).
+Proof. exact (archive_info_roundtrip s n). Qed.
+Print Assumptions C19_archive_info_roundtrip.
+
+Theorem C19_archive_list_roundtrip l : l <> [] ->
+  Forall (fun sn => 0 < fst sn /\ 0 < snd sn /\ fst sn * snd sn < 2^31) l ->
+  validate (fill_offset (map (fun sn => mkAinfo 0 (fst sn) (snd sn)) l)) = true ->
+  parse_archive_info_list (archive_list_string l) = Some (fill_offset (map (fun sn => mkAinfo 0 (fst sn) (snd sn)) l)).
+Proof. exact (archive_list_roundtrip l). Qed.
+Print Assumptions C19_archive_list_roundtrip.
+
+Theorem C19_method_roundtrip m : 1 <= m <= 8 -> method_of_string (method_string m) = Some m.
+Proof. exact (method_roundtrip m). Qed.
+Print Assumptions C19_method_roundtrip.
